@@ -38,6 +38,28 @@ def nxt(ctx, it):
     return ctx.m.iter_next(it)
 
 
+def nth(ctx, it, n):
+    """Iterator::nth as std's adaptors use it (Skip::next, StepBy::next, and through Enumerate / Take): an iterator type of the
+    crate that overrides `nth` gets its own implementation called; everything else is n times next() and one more."""
+    it0 = it
+    it = ctx.m.peel(it)
+    if isinstance(it, BoxObj):
+        return nth(ctx, it.fields[0], n)
+    if isinstance(it, Iter) and hasattr(it, 'nth_'):
+        return it.nth_(ctx, n)
+    if isinstance(it, Struct) and it.ty not in ('Range', 'RangeInclusive'):
+        impls = [g for (sh, sf, g) in ctx.m.res.trait_impls('Iterator', 'nth') if sh == it.ty]
+        if impls:
+            r = ctx.m.call_fn(impls[0], [it0 if isinstance(it0, Ref) else ref_to(it), n])
+            return STOP if r.variant == 'None' else r.fields[0]
+    k = n
+    while ctx.branch(ctx.m.int_binop('Gt', k, Int(0, 'usize'))):
+        k = ctx.m.int_binop('Sub', k, Int(1, 'usize'))
+        if nxt(ctx, it0) is STOP:
+            return STOP
+    return nxt(ctx, it0)
+
+
 def nxt_back(ctx, it):
     it = ctx.m.peel(it)
     if isinstance(it, BoxObj):
@@ -234,6 +256,14 @@ class EnumerateI(Iter):
         self.n = checked_arith(ctx, 'Add', self.n, Int(1, 'usize'))
         return Tup([i, v])
 
+    def nth_(self, ctx, n):
+        v = nth(ctx, self.inner, n)
+        if v is STOP:
+            return STOP
+        i = ctx.m.int_binop('Add', self.n, n)
+        self.n = ctx.m.int_binop('Add', i, Int(1, 'usize'))
+        return Tup([i, v])
+
     def nxt_back(self, ctx):
         ln = iter_len(ctx, self.inner)
         if ln is None:
@@ -278,16 +308,24 @@ class SkipI(Iter):
         self.n = n
 
     def nxt(self, ctx):
-        while self.n is not None:
-            if ctx.branch(ctx.m.int_binop('Gt', self.n, Int(0, 'usize'))):
-                self.n = ctx.m.int_binop('Sub', self.n, Int(1, 'usize'))
-                v = nxt(ctx, self.inner)
-                if v is STOP:
-                    self.n = None
-                    return STOP
-            else:
-                self.n = None
+        if self.n is not None:
+            n, self.n = self.n, None
+            if ctx.branch(ctx.m.int_binop('Gt', n, Int(0, 'usize'))):
+                return nth(ctx, self.inner, n)           # std: self.iter.nth(take(&mut self.n))
         return nxt(ctx, self.inner)
+
+    def nth_(self, ctx, n):
+        # std Skip::nth: the pending skip and n go to the inner iterator in one nth call (two on overflow)
+        if self.n is not None:
+            k, self.n = self.n, None
+            if ctx.branch(ctx.m.int_binop('Gt', k, Int(0, 'usize'))):
+                tot = ctx.m.int_binop('Add', k, n)
+                if ctx.branch(ctx.m.int_binop('Lt', tot, k)):        # k + n wrapped
+                    if nth(ctx, self.inner, ctx.m.int_binop('Sub', k, Int(1, 'usize'))) is STOP:
+                        return STOP
+                    return nth(ctx, self.inner, n)
+                return nth(ctx, self.inner, tot)
+        return nth(ctx, self.inner, n)
 
 
 class TakeI(Iter):
@@ -300,6 +338,15 @@ class TakeI(Iter):
             return STOP
         self.n = ctx.m.int_binop('Sub', self.n, Int(1, 'usize'))
         return nxt(ctx, self.inner)
+
+    def nth_(self, ctx, n):
+        if ctx.branch(ctx.m.int_binop('Gt', self.n, n)):
+            self.n = ctx.m.int_binop('Sub', self.n, ctx.m.int_binop('Add', n, Int(1, 'usize')))
+            return nth(ctx, self.inner, n)
+        if ctx.branch(ctx.m.int_binop('Gt', self.n, Int(0, 'usize'))):
+            nth(ctx, self.inner, ctx.m.int_binop('Sub', self.n, Int(1, 'usize')))
+            self.n = Int(0, 'usize')
+        return STOP
 
 
 def _take_nxt_back(self, ctx):
@@ -333,13 +380,8 @@ class StepByI(Iter):
         if self.first:
             self.first = False
             return nxt(ctx, self.inner)
-        # skip step-1 elements, then yield
-        k = ctx.m.int_binop('Sub', self.step, Int(1, 'usize'))
-        while ctx.branch(ctx.m.int_binop('Gt', k, Int(0, 'usize'))):
-            k = ctx.m.int_binop('Sub', k, Int(1, 'usize'))
-            if nxt(ctx, self.inner) is STOP:
-                return STOP
-        return nxt(ctx, self.inner)
+        # skip step-1 elements, then yield (std: self.iter.nth(self.step_minus_one))
+        return nth(ctx, self.inner, ctx.m.int_binop('Sub', self.step, Int(1, 'usize')))
 
 
 class ScanI(Iter):
@@ -699,12 +741,7 @@ def _last(ctx, args, ck):
 
 @model('Iterator::nth')
 def _nth(ctx, args, ck):
-    n = args[1]
-    while ctx.branch(ctx.m.int_binop('Gt', n, Int(0, 'usize'))):
-        n = ctx.m.int_binop('Sub', n, Int(1, 'usize'))
-        if nxt(ctx, args[0]) is STOP:
-            return NONE()
-    v = nxt(ctx, args[0])
+    v = nth(ctx, args[0], args[1])
     return NONE() if v is STOP else Some(v)
 
 
